@@ -1,5 +1,6 @@
 import JinjaV.Model.Sx
 import JinjaV.Model.Autoesc
+import JinjaV.Model.SelectAutoescape
 namespace JinjaV.Wire.Autoesc
 open JinjaV JinjaV.Escape JinjaV.HtmlFilt JinjaV.Autoesc
 
@@ -37,6 +38,17 @@ def handle : List Sx → Sx
       Sx.ok (.list [S on, S off, Sx.ofBool t.neutral, S (unescape on), Sx.ofBool (mfree on)])
     | _, _ => Sx.bad
   | [.atom "unescape", .str s] => Sx.ok (S (unescape s.toList))
+  | [.atom "select", .list en, .list dis, dfs, dflt, name] =>
+    let strs (xs : List Sx) := Sx.mapM? (fun x => x.toStr?.map String.toList) xs
+    let asciiLower (s : List Char) : List Char := s.map Char.toLower
+    let name? : Option (Option (List Char)) := match name with
+      | .atom "none" => some none
+      | .str s => some (some s.toList)
+      | _ => none
+    match strs en, strs dis, dfs.toBool?, dflt.toBool?, name? with
+    | some en, some dis, some dfs, some dflt, some name =>
+      Sx.ok (Sx.ofBool (JinjaV.SelectAutoescape.select asciiLower en dis dfs dflt name))
+    | _, _, _, _, _ => Sx.bad
   | [.atom "mfree", .str s] => Sx.ok (Sx.ofBool (mfree s.toList))
   | [.atom "free", .str chars, .str s] => Sx.ok (Sx.ofBool (s.toList.all fun c => !chars.toList.contains c))
   | _ => Sx.bad
